@@ -485,6 +485,18 @@ Proof.
   intros n Hnum. eapply offer_start_covers_trs; eauto.
 Qed.
 
+Lemma fresh_mid_not_in_use_lemma s i t t' :
+  offer_nowrap s = true ->
+  nth_error (trs s) i = Some t -> t_mid t = "" ->
+  nth_error (trs (offer_alloc s)) i = Some t' ->
+  (forall r, In r (remote_secs (cur_remote s)) \/ In r (remote_secs (pend_remote s)) -> t_mid t' <> r_mid r) /\
+  (forall u, In u (trs s) -> t_mid t' <> t_mid u).
+Proof.
+  intros Hw Hn Hu Hn'. split.
+  - intros r Hr. exact (fresh_mid_not_in_remote_lemma s i t t' r Hw Hn Hu Hn' Hr).
+  - intros u Hin. exact (fresh_mid_not_a_transceiver_mid_lemma s i t t' u Hw Hn Hu Hn' Hin).
+Qed.
+
 (* ---------- witnesses ---------- *)
 
 Definition gen_kind_mids (ops : list op) : list (list (kind * option string)) :=
